@@ -47,6 +47,9 @@ type healCase struct {
 	// NoPeriodic: the periodic slot refresh runs at its production rate (2 min: never during a case), so a layout change can only
 	// be learnt through refreshes that a redirection - or, after a fail-over, a failed connect to the dead master - triggers.
 	NoPeriodic bool `json:"no_periodic_refresh,omitempty"`
+	// Suspected: masters (by index) that the other nodes report as "master,fail?" in CLUSTER NODES for the whole case - a
+	// suspicion, not a failure: they are alive and own their slots, and layout changes may give them more
+	Suspected []int `json:"suspected,omitempty"`
 	StartDown []int `json:"start_down"`
 	Ops       []hop `json:"ops"`
 }
@@ -170,6 +173,14 @@ func checkHeal(c healCase) (inf healInfo, v *verdict) {
 	}
 	defer w.Close()
 	w.ListFailed = true
+	if len(c.Suspected) > 0 {
+		w.Lock()
+		w.Suspected = map[int]bool{}
+		for _, i := range c.Suspected {
+			w.Suspected[i%c.Masters] = true
+		}
+		w.Unlock()
+	}
 	if c.ByName && localhostOK() {
 		w.AnnounceHost = "localhost"
 	}
@@ -643,6 +654,9 @@ func keysForSlots(slots []int, n int) []string {
 func genHeal(t *rapid.T) healCase {
 	c := healCase{Masters: rapid.IntRange(2, 4).Draw(t, "masters"), Replicas: rapid.IntRange(0, 2).Draw(t, "replicas"), ByName: rapid.IntRange(0, 2).Draw(t, "byname") == 0,
 		Strategy: rapid.SampledFrom([]int{0, 0, 1, 2}).Draw(t, "strategy"), NoPeriodic: rapid.IntRange(0, 2).Draw(t, "noperiodic") == 0}
+	if rapid.IntRange(0, 3).Draw(t, "suspect") == 0 {
+		c.Suspected = rapid.SliceOfN(rapid.IntRange(0, 3), 1, 2).Draw(t, "suspected")
+	}
 	if rapid.IntRange(0, 4).Draw(t, "startdown") == 0 {
 		c.StartDown = []int{rapid.IntRange(0, c.Masters-1).Draw(t, "sd")}
 	}
@@ -705,6 +719,9 @@ func TestHeal(t *testing.T) {
 		}
 		if c.NoPeriodic {
 			vh.Rec().Class("heal", "no_periodic_refresh:only_redirection-triggered_refreshes")
+		}
+		if len(c.Suspected) > 0 {
+			vh.Rec().Class("heal", "live_masters_reported_as_fail?_(PFAIL)")
 		}
 		if inf.dropsDuringPendingConnect > 0 {
 			vh.Rec().Class("heal", "connections_lost_while_a_connect_was_pending")
